@@ -71,6 +71,7 @@ def case_strategy(draw):
         c["invalid"] = draw(st.sampled_from(["df_too_small", "negative_degree", "float_degree", "df_knots_inconsistent", "knots_outside", "lower_gt_upper",
                                               "neither", "knots_2d", "float_df", "lower_above_data", "upper_below_data"]))
     c["later_frac"] = draw(st.lists(st.integers(0, 100), min_size=1, max_size=8))
+    c["int_dtype"] = draw(st.booleans())
     return c
 
 
@@ -85,6 +86,8 @@ def judge(ctx, case):
 
     t = case["transform"]
     x = np.asarray(case["x"]["values"], dtype=float)
+    if case["x"]["kind"] == "smallint" and case.get("int_dtype"):
+        x = x.astype(np.int64)  # counts, ages, days: integer-typed input
     n = len(x)
     kind = case["x"]["kind"]
     off = kind == "offset" and np.min(np.abs(x)) >= 1e4 - 10
@@ -124,6 +127,13 @@ def judge(ctx, case):
         count(kind == "ties" or off or n <= d + 3)
         if nd <= d:
             ctx.classes["unjudged:degree>=distinct_values"] += 1
+            return
+        xs = (x - x.mean()) / x.std()
+        vand = np.column_stack([xs ** k for k in range(d + 1)])
+        vand = vand / np.sqrt((vand ** 2).sum(axis=0))
+        if np.linalg.cond(vand) > 1e10:
+            # e.g. six points within 0.005 of each other and one at 5: degree 6 is not resolvable in double precision
+            ctx.classes["unjudged:polynomial_basis_ill_conditioned"] += 1
             return
         obj = TRANSFORMS["poly"]()
         try:
@@ -247,6 +257,9 @@ def judge(ctx, case):
     classes.append("inner_knots:%s" % ("0" if n_inner == 0 else ("1" if n_inner == 1 else "2+")))
     count(kind == "ties" or off or n_inner >= 1)
     if lb > ub or (len(inner) and (inner.min() < lb or inner.max() > ub)):
+        return
+    if lb == ub:
+        ctx.classes["unjudged:constant_vector_for_bs"] += 1  # no interval between the boundary knots
         return
     full = dict(case, kwargs={k: (v if not isinstance(v, float) else float(v)) for k, v in kw.items()})
     try:
